@@ -208,6 +208,16 @@ func genSuiteFile(dir, name string, cases []*conformancev1.TestCase) (string, er
 	return path, os.WriteFile(path, data, 0o644)
 }
 
+// genSuiteFileFor writes an arbitrary suite message.
+func genSuiteFileFor(dir string, suite *conformancev1.TestSuite) (string, error) {
+	data, err := protojson.MarshalOptions{Multiline: true}.Marshal(suite)
+	if err != nil {
+		return "", err
+	}
+	path := filepath.Join(dir, strings.ReplaceAll(suite.Name, " ", "_")+".yaml")
+	return path, os.WriteFile(path, data, 0o644)
+}
+
 // genLoadCheck loads one case on its own through the real loading pipeline and
 // reports "ok", "rejected: ..." (a legal refusal) or "panic: ...".
 func genLoadCheck(dir string, tc *conformancev1.TestCase, configCases []configCase, mode conformancev1.TestSuite_TestMode) (verdict string) {
